@@ -16,8 +16,8 @@ TRUSTED = [
     'tied by correspondence only',
     'astropy FITS writing/reading of the synthetic trees; numpy fancy indexing data[thisfiber-1], np.unique, argsort, '
     'nonzero, concatenate (exercised through the real code, modelled by their meaning)',
-    'harness-side expansion of fiber=None ("all fibres") calls into explicit request vectors (number_of_fibers: 640 '
-    'before MJD 55025, platelist N_TOTAL afterwards)',
+    "Python's int(run2d) modelled as 'non-empty, decimal digits only'; os.path.join as concatenation of path components; "
+    'RUN2D/RUN1D strings of platelist.fits represented by integer codes (only equality is used)',
     'history groups: module-level state in pydl is only observable through sequences of calls in one process; the harness '
     'runs fixed interleavings over 4-5 trees/reductions per group (not all interleavings)',
     'harness/impl/c16_impl.py sets RUN2D, RUN1D, BOSS_SPECTRO_REDUX/SPECTRO_REDUX, SPECTRO_MATCH, PHOTO_RESOLVE per call',
@@ -32,8 +32,9 @@ ASSUMPTIONS = [
     'COEFF0/COEFF1 are dyadic so that c0 + c1*pixel is exact in double precision',
     'the wavelength statement is read per spectrum: row i of loglam is COEFF0_i + COEFF1_i*pixel for the NAXIS1_i pixels '
     'of its own file and is zero-padded on the right like every other image (this is what readspec.pro does as well)',
-    "align=True (the only caller of spec_append with pixshift != 0) is outside: the property says 'unshifted'; "
-    'spec_append itself is checked for every pixshift',
+    "align=True (the only caller of spec_append with pixshift != 0) is outside: the property says 'unshifted' / 'no pixel "
+    "is shifted', which is false by design for an aligned call; only the no-op case (equal COEFF0/COEFF1 and pixel counts) is "
+    'exercised; spec_append itself is checked for every pixshift',
     'SPECTRO_MATCH and PHOTO_RESOLVE must be set (readspec reads them unconditionally when no photoPlate file sits next '
     'to the spPlate file)',
 ]
@@ -229,6 +230,8 @@ def gen_scenario(rng, si, kind, root, thorough=False):
         meta = {'uid': k + 1, 'plate': p, 'mjd': m, 'nfib': nfib, 'npix': npix, 'nper': nper,
                 'c0z': 3 * SCALE + rng.randint(SCALE // 2, SCALE // 2 + 200000), 'c1z': rng.randint(90, 125),
                 'has_zbest': has_zbest, 'has_zall': has_zall, 'has_photo': has_photo}
+        if same_npix and metas:      # equal pixel counts come with equal wavelength solutions (align=True is then a no-op)
+            meta['c0z'], meta['c1z'] = metas[0]['c0z'], metas[0]['c1z']
         metas.append(meta)
         d = dict(meta)
         d['uid'] = 100 + k + 1
@@ -355,6 +358,13 @@ def gen_scenario(rng, si, kind, root, thorough=False):
     vec_call('vector-scrambled', r)
     r2 = rand_reqs(rng.randint(2, 10))
     vec_call('vector-random', r2)
+    if same_npix:
+        # align=True with nothing to align (same COEFF0/COEFF1 and pixel count everywhere): pixshift is 0 for every file and
+        # the answer must be the unaligned one; other uses of align are outside the property (notes/C16.md)
+        ra = cover_reqs()
+        while len(ra) < 2:
+            ra.append(ra[0])
+        vec_call('align-noop', ra, feature='align', extra_kw={'align': True})
     # descending key order, each file once: grouping order is the exact reverse of request order
     r3 = sorted([(mt['plate'], mt['mjd'], rng.randint(1, mt['nfib'])) for mt in metas], key=lambda t: (-t[0], -t[1]))
     if len(r3) >= 2:
